@@ -6,6 +6,7 @@ import (
 	"context"
 	"time"
 
+	"github.com/platinummonkey/go-concurrency-limits/core"
 	verif "github.com/platinummonkey/go-concurrency-limits/zz_verifrt"
 )
 
@@ -50,3 +51,81 @@ func VerifC02_Queue_GiveUpRace() { verifGiveUpRace("c02") }
 //
 //verif:harness property=C12 theory=bv tier=quick unwind=3 unwindcut=1 clock=frozen maxpaths=30000
 func VerifC12_Queue_GiveUpRace() { verifGiveUpRace("c12") }
+
+// verifCancelRace: limit 1 held by R since setup; caller W calls Acquire with a context that the
+// environment cancels at an arbitrary instant (or never); R completes with an arbitrary outcome; all
+// interleavings, timers off (the only ways out of the wait are the wake-up and the cancellation).
+// At quiescence, whenever W has returned:
+//   a listener iff ok; a refused W holds no capacity: strategy busy and the limiter gauge equal the
+//   number of tokens owned by a caller (R's is completed, so 1 iff W was granted).
+// A W that is still blocked (lost wake-up without cancellation) is C10's subject, not asserted here.
+func verifCancelRace(kind int) {
+	inner, st := verifFullLimiter()
+	var lim core.Limiter
+	switch kind {
+	case 0:
+		lim = NewBlockingLimiter(inner, 0, nil)
+	case 1:
+		lim = NewDeadlineLimiter(inner, verif.TimeAt(1<<60), nil)
+	default:
+		lim = NewQueueBlockingLimiterFromConfig(inner, QueueLimiterConfig{Ordering: OrderingFIFO, MaxBacklogSize: 10, MaxBacklogTimeout: time.Hour, BacklogEvictDoneCtx: true})
+	}
+	held, ok := lim.Acquire(context.Background())
+	verif.Assert("setup-holds-the-only-token", ok && st.GetBusyCount() == 1)
+	outcome := verif.Choice("outcome", 3)
+	ctx := verif.CancelCtxEvent("w")
+	var wOK, wNil, wDone bool
+	verif.Spawn("w", func() {
+		l, granted := lim.Acquire(ctx)
+		wOK, wNil, wDone = granted, l == nil, true
+	})
+	verif.Spawn("r", func() { verifComplete(held, outcome) })
+	verif.Parallel()
+	if ctx.Err() != nil {
+		// C13: a cancelled caller does not stay blocked (timers are off: cancellation alone must end the wait)
+		verif.Assert("cancelrace-cancelled-caller-not-blocked", wDone && !verif.Blocked("w"))
+		verif.Reach("cancelled")
+	}
+	if wDone {
+		verif.Assert("cancelrace-listener-iff-ok", wOK == !wNil)
+		owned := 0
+		if wOK {
+			owned = 1
+		}
+		verif.Class("w_refused", !wOK)
+		verif.Assert("cancelrace-refused-holds-no-capacity", st.GetBusyCount() == owned)
+		verif.Assert("cancelrace-gauge-is-tokens-owned", *inner.inFlight == int64(owned))
+		verif.Reach("w-returned")
+	}
+	verif.Reach("end")
+}
+
+// VerifC02_Blocking_CancelRace
+//
+//verif:harness property=C02 theory=bv tier=quick timers=off unwind=3 unwind_thorough=5 unwindcut=1 clock=frozen maxpaths=30000
+func VerifC02_Blocking_CancelRace() { verifCancelRace(0) }
+
+// VerifC02_Deadline_CancelRace
+//
+//verif:harness property=C02 theory=bv tier=quick timers=off unwind=3 unwind_thorough=5 unwindcut=1 clock=frozen maxpaths=30000
+func VerifC02_Deadline_CancelRace() { verifCancelRace(1) }
+
+// VerifC02_Queue_CancelRace
+//
+//verif:harness property=C02 theory=bv tier=quick timers=off unwind=3 unwind_thorough=5 unwindcut=1 clock=frozen maxpaths=30000
+func VerifC02_Queue_CancelRace() { verifCancelRace(2) }
+
+// VerifC13_Blocking_CancelRace
+//
+//verif:harness property=C13 theory=bv tier=quick timers=off unwind=3 unwind_thorough=5 unwindcut=1 clock=frozen maxpaths=30000
+func VerifC13_Blocking_CancelRace() { verifCancelRace(0) }
+
+// VerifC13_Deadline_CancelRace
+//
+//verif:harness property=C13 theory=bv tier=quick timers=off unwind=3 unwind_thorough=5 unwindcut=1 clock=frozen maxpaths=30000
+func VerifC13_Deadline_CancelRace() { verifCancelRace(1) }
+
+// VerifC13_Queue_CancelRace
+//
+//verif:harness property=C13 theory=bv tier=quick timers=off unwind=3 unwind_thorough=5 unwindcut=1 clock=frozen maxpaths=30000
+func VerifC13_Queue_CancelRace() { verifCancelRace(2) }
